@@ -1322,6 +1322,34 @@ def repeated_generic_specs(draw, mods=2):
     return c if shape == "class" else {"k": "list", "sp": "list", "a": [c]}
 
 
+@st.composite
+def scalar_union_specs(draw, mods=1):
+    """Unions of 2-4 leaf members (scalars, enums, literals; `str` at any position, None anywhere), at the root or one
+    container level down: the annotations in which one input class is taken by different members depending on the value."""
+    names = Names(False)
+    n = draw(st.integers(2, 4))
+    pool = ["int", "str", "float", "Decimal", "date", "datetime", "UUID", "bool", "timedelta", "time", "Fraction", "PurePosixPath"]
+    ms = []
+    for t in draw(st.lists(st.sampled_from(pool), min_size=n, max_size=n, unique=True)):
+        ms.append(S(t))
+    if draw(st.integers(0, 2)) == 0:
+        ms[draw(st.integers(0, len(ms) - 1))] = draw(st.one_of(enum_specs(names, mod=0), literal_specs()))
+    if draw(st.integers(0, 2)) == 0:
+        ms.insert(draw(st.integers(0, len(ms))), dict(NONE))
+    u = {"k": "union", "a": ms, "sp": draw(st.sampled_from(["Union", "pipe"]))}
+    shape = draw(st.sampled_from(["root", "root", "list", "dict", "tuple", "field"]))
+    if shape == "list":
+        return {"k": "list", "sp": "list", "a": [u]}
+    if shape == "dict":
+        return {"k": "dict", "sp": "dict", "a": [S("str"), u]}
+    if shape == "tuple":
+        return {"k": "tuple", "sp": "tuple", "a": [S("int"), u]}
+    if shape == "field":
+        return {"k": "class", "name": names.fresh("C"), "mod": 0, "flavour": draw(st.sampled_from(["dataclass", "namedtuple", "typeddict"])),
+                "future": False, "fields": [{"n": "a", "t": u}, {"n": "b", "t": S("int")}]}
+    return u
+
+
 def root_specs(**kw):
     """Root annotations: a spec of U, occasionally wrapped in Final / ClassVar at the root."""
     base = specs(**kw)
